@@ -518,13 +518,34 @@ class TileCreator(object):
                 splitted_tiles = split_meta_tiles(meta_tile_image, meta_tile.tile_patterns,
                                                   tile_size, self.tile_mgr.image_opts)
                 splitted_tiles = [self.tile_mgr.apply_tile_filter(t) for t in splitted_tiles]
+                new_tiles = splitted_tiles
+                if meta_tile_image.authorize_stale:
+                    # The configuration authorises blank tiles generated by the error_handler
+                    # to be replaced by stale tiles from cache.
+                    splitted_tiles, new_tiles = self._replace_with_stale_tiles(splitted_tiles)
                 if meta_tile_image.cacheable:
-                    self.cache.store_tiles(splitted_tiles, dimensions=self.dimensions)
+                    self.cache.store_tiles(new_tiles, dimensions=self.dimensions)
                 return splitted_tiles
             # else
         tiles = [Tile(coord) for coord in meta_tile.tiles]
         self.cache.load_tiles(tiles, dimensions=self.dimensions)
         return tiles
+
+    def _replace_with_stale_tiles(self, tiles):
+        """
+        Replace each tile that is still in the cache with the cached (stale) tile.
+        Returns all tiles and the tiles that were not in the cache.
+        """
+        result = []
+        new_tiles = []
+        for tile in tiles:
+            stale_tile = Tile(tile.coord)
+            if self.cache.load_tile(stale_tile, dimensions=self.dimensions):
+                result.append(stale_tile)
+            else:
+                result.append(tile)
+                new_tiles.append(tile)
+        return result, new_tiles
 
     def _create_bulk_meta_tile(self, meta_tile):
         """
@@ -553,6 +574,12 @@ class TileCreator(object):
                         tile = Tile(coord, cacheable=tile_image.cacheable)
                         tile.source = tile_image
                         tile = self.tile_mgr.apply_tile_filter(tile)
+                        if tile_image.authorize_stale:
+                            # serve the stale tile from the cache instead of the error response
+                            tiles, new_tiles = self._replace_with_stale_tiles([tile])
+                            if not new_tiles:
+                                tile = tiles[0]
+                                tile.stored = True
                     except BlankImage:
                         return None
                     else:
